@@ -5,6 +5,9 @@ package main
 import (
 	"bytes"
 	"fmt"
+	"hash/fnv"
+	"regexp"
+	"sort"
 	"strings"
 	"sync"
 
@@ -57,11 +60,28 @@ func detectableCut(format string, o Opts, b []byte, k int) bool {
 		last := bytes.LastIndexAny(b, "}]")
 		return k > first && k <= last
 	case "rdfxml":
+		// root element start: the first '<' outside processing instructions, comments and the DOCTYPE
 		start := -1
-		for i := 0; i+1 < len(b); i++ {
-			if b[i] == '<' && b[i+1] != '?' && b[i+1] != '!' {
+		for i := 0; i+1 < len(b) && start < 0; {
+			switch {
+			case bytes.HasPrefix(b[i:], []byte("<?")):
+				j := bytes.Index(b[i:], []byte("?>"))
+				if j < 0 {
+					return false
+				}
+				i += j + 2
+			case bytes.HasPrefix(b[i:], []byte("<!--")):
+				j := bytes.Index(b[i+4:], []byte("-->"))
+				if j < 0 {
+					return false
+				}
+				i += 4 + j + 3
+			case bytes.HasPrefix(b[i:], []byte("<!")):
+				return false // DOCTYPE with a possible internal subset: not analysed
+			case b[i] == '<':
 				start = i
-				break
+			default:
+				i++
 			}
 		}
 		last := bytes.LastIndexByte(b, '>')
@@ -107,7 +127,10 @@ func (e *engine) scheduleCase(c Case, r *vh.Rng, verboseOut bool) {
 			e.panicOrHang(cc, got)
 			return
 		}
-		if got.Verdict != ref.Verdict || !sameStmts(got.Stmts, ref.Stmts) {
+		if got.Verdict == ref.Verdict && !sameStmts(got.Stmts, ref.Stmts) && sameModuloOrder(got.Stmts, ref.Stmts) {
+			e.k.add(violation{Prop: "C15", Kind: "order-only", Format: c.Format, Sub: "statement-order",
+				Detail: fmt.Sprintf("same statements (modulo blank-node labels) in a different order under %s: %s", what, firstDiff(ref.Stmts, got.Stmts)), Case: cc})
+		} else if got.Verdict != ref.Verdict || !sameStmts(got.Stmts, ref.Stmts) {
 			e.k.add(violation{Prop: "C15", Kind: kind, Format: c.Format, Sub: what,
 				Detail: fmt.Sprintf("reference (whole): %s/%d statements; %s: %s/%d statements; %s; errors %q vs %q", ref.Verdict, len(ref.Stmts), what, got.Verdict, len(got.Stmts), firstDiff(ref.Stmts, got.Stmts), clip(ref.Err), clip(got.Err)), Case: cc})
 		} else if got.Err != ref.Err {
@@ -274,4 +297,48 @@ func (e *engine) panicOrHang(c Case, r runResult) {
 		return
 	}
 	e.k.judge(c, r)
+}
+
+var reBn = regexp.MustCompile(`_:b[0-9]+`)
+
+// sameModuloOrder: equal as multisets after replacing blank-node labels by a label-independent
+// signature (three rounds of colour refinement over the statements a node occurs in). A necessary
+// condition for isomorphism that separates everything but pathological symmetric cases.
+func sameModuloOrder(a, b []string) bool {
+	if len(a) != len(b) {
+		return false
+	}
+	ca, cb := refine(a), refine(b)
+	sort.Strings(ca)
+	sort.Strings(cb)
+	return sameStmts(ca, cb)
+}
+
+func refine(st []string) []string {
+	colour := map[string]string{}
+	cur := append([]string(nil), st...)
+	for round := 0; round < 3; round++ {
+		occ := map[string][]string{}
+		for _, s := range st {
+			masked := reBn.ReplaceAllStringFunc(s, func(l string) string { return "_:" + colour[l] })
+			for _, l := range reBn.FindAllString(s, -1) {
+				occ[l] = append(occ[l], strings.Replace(masked, "_:"+colour[l], "_:SELF", 1))
+			}
+		}
+		next := map[string]string{}
+		for l, o := range occ {
+			sort.Strings(o)
+			h := fnv.New64a()
+			for _, x := range o {
+				h.Write([]byte(x))
+				h.Write([]byte{0})
+			}
+			next[l] = fmt.Sprintf("%x", h.Sum64())
+		}
+		colour = next
+	}
+	for i, s := range st {
+		cur[i] = reBn.ReplaceAllStringFunc(s, func(l string) string { return "_:" + colour[l] })
+	}
+	return cur
 }
